@@ -29,7 +29,7 @@ deriving Repr
 def atomInfo (l r : Expr) : AtomInfo :=
   let lLong := widthOf l
   let rImm := r.asSmallConst.isSome
-  let want : Option Bool := if l.signed && lLong then some true else none
+  let want : Option Bool := if (l.signed || r.signed) && lLong then some true else none
   let rWidth := want.getD (widthOf r)
   let rLong := !rImm && (match want with | some b => retLong b r | none => widthOf r)
   let sg := l.signed || r.signed
@@ -38,12 +38,6 @@ def atomInfo (l r : Expr) : AtomInfo :=
 def isShortReg : Expr → Bool
   | .reg _ lg _ => !lg
   | _ => false
-
-/-- *u64-vs-negative-short*: 64-bit unsigned left operand, signed right operand computed in 32 bits: the right
-side is sign-extended to 32 bits only and then compared in 64 -/
-def u64NegShort (l r : Expr) : Bool :=
-  let a := atomInfo l r
-  !l.signed && a.lLong && r.signed && !a.rImm && !a.rLong
 
 /-- *narrow-reg-in-64* at the comparison: a `w`/`sw` register view is compared with all 64 bits of the register
 (64-bit jump, operand not widened), or sits inside a 64-bit operand computation (C01's predicate) -/
@@ -74,11 +68,8 @@ def constLeft32 (e : Expr) (w : Bool) : Bool := !w && !narrowLeaf e && !isConstE
 
 def atomClasses (l r : Expr) : List String :=
   let a := atomInfo l r
-  ([("u64-vs-negative-short", u64NegShort l r), ("narrow-reg-in-64", cmpNarrow l r),
+  ([("narrow-reg-in-64", cmpNarrow l r),
     ("widen-in-place", widenInPlace l r),
-    ("unary-in-place", unaryInPlace l false || (!a.rImm && unaryInPlace r false)),
-    ("unary-32-in-64", neg32in64 l a.lLong || (!a.rImm && neg32in64 r a.rWidth)),
-    ("abs-32", abs32 l a.lLong || (!a.rImm && abs32 r a.rWidth)),
     ("const-left-32", constLeft32 l a.lLong || (!a.rImm && constLeft32 r a.rWidth))].filter (·.2)).map (·.1)
 
 def CObj.classes : CObj → List String
